@@ -269,6 +269,12 @@ example : toLoc (.compound ⟨[(0, 5), (7, 11), (12, 18)], .minus⟩) = some ⟨
 -- a window over the example CDS that holds kept positions
 example : (cdsKept exampleCDS.loc (specFrames exampleCDS)).filter (inW 3 18) ≠ [] := by decide
 
+-- the hypotheses of `fast_path_is_codon_concatenation` are met by every well-formed CDS (`prepared_cases`)
+example : ∃ (L : List Blk) (off : Nat), prepare exampleCDS none = .ok (.compound ⟨L, exampleCDS.loc.strand⟩, (off : Int)) := by
+  have hwf : WFCDS exampleCDS := by constructor <;> simp [exampleCDS] <;> decide
+  obtain ⟨L, off, h, _⟩ := prepared_cases exampleCDS hwf (by decide) (Or.inr (by decide))
+  exact ⟨L, off, h⟩
+
 /-- the example CDS with letters: every hypothesis of T2b / T3b holds -/
 def exampleSeqCDS : CDS := { exampleCDS with seq := some "ACGTNACGTAGCTAGCTRYAcgt".toList }
 example : SeqOK exampleSeqCDS "ACGTNACGTAGCTAGCTRYAcgt".toList := by
@@ -323,6 +329,11 @@ def plainCDS : CDS := { loc := ⟨[(1, 4)], .plus⟩, start := 1, «end» := 4, 
 example : ans (scanChromosomeCodonLocations plainCDS (some ⟨some 0, some 0, false⟩)) =
     some [.single (1, 4) .plus] := by decide +kernel
 example : ans (scanChromosomeCodonLocations plainCDS (some ⟨some 5, some 9, false⟩)) = none := by decide +kernel
+-- … while it satisfies every hypothesis of `window_codons_single_exon_frame0` for the window [0, 5)
+example : WFCDS plainCDS ∧ plainCDS.loc.blocks = [(1, 4)] ∧ plainCDS.frames = [.ZERO] ∧
+    (cdsKept plainCDS.loc (specFrames plainCDS)).filter (inW 0 5) ≠ [] := by
+  refine ⟨?_, rfl, rfl, by decide⟩
+  constructor <;> simp [plainCDS] <;> decide
 
 /-- F-C05h: first block shorter than the start offset -/
 example : ans (constructFramesFromLocation (.compound ⟨[(0, 1), (7, 11)], .plus⟩) .TWO) = some [.TWO, .TWO] := by
